@@ -1033,6 +1033,8 @@ class Polyhedron(Shape3D):
             ["vertices", "faces", "centroid", "volume", "inertia_tensor"]
         )
         hoomd_dict = _map_dict_keys(data, key_mapping=_hoomd_dict_mapping)
+        # Copy: the internal array is moved back to the old centroid below.
+        hoomd_dict["vertices"] = hoomd_dict["vertices"].copy()
         hoomd_dict["sweep_radius"] = 0.0
 
         self.centroid = old_centroid
